@@ -754,7 +754,7 @@ func setKeys(m map[string]bool) []string {
 	return o
 }
 
-const convergeGrace = 20 * time.Second // >= 3x every timer involved (1 s health interval, 2.5 s back-off) + 10 s
+const convergeGrace = 25 * time.Second // >= 3x every timer involved (1 s health interval, 5 s back-off) + 10 s
 
 func settleAndJudge(c *h.Case, env *reloadEnv, g *histGen, svc *client.Service, s cfgSet, targetOpen bool, tracks, vtracks map[string]*nameTrack, stepIdx int) bool {
 	pfx := env.pfx + "p"
